@@ -15,7 +15,7 @@ Model.Proxy — `varlink bridge` (varlink-cli/src/proxy.rs, main.rs 354-410).
                copy loops
 
 This is the code after the fix commits 723e399, 78c09f9, 86882c4, 5599eab, 035a260,
-84fe826, ac1225d.  The world outside the bridge is a parameter: the configured
+84fe826, ac1225d, aebf686.  The world outside the bridge is a parameter: the configured
 resolver address, the resolver's answers (indexed by the number of `Resolve` calls
 made so far, so that a changing registry can be expressed), and what
 `varlink_connect` reaches under an address (a `Service` of Model.Wire, or nothing).
@@ -170,7 +170,9 @@ def upgradedPump (svcOut : Bytes → Bytes) (buffered : Bytes) (later : List Byt
   { toService := ts, toClient := svcOut ts }
 
 /-- `proxy::handle_connect`: `clientReads` / `svcSched` are the read schedules of the
-    two copy loops (whether the connection has a child process no longer matters) -/
+    two copy loops over the complete streams (whether the connection has a child process
+    no longer matters; when the client's stream ends the service connection is half-closed
+    and the second loop runs until the service closes) -/
 def directMode (svcOut : Bytes → Bytes) (clientReads : List Bytes) (svcSched : Bytes → List Bytes) : Pumped :=
   let ts := copyLoop clientReads
   { toService := ts, toClient := copyLoop (svcSched (svcOut ts)) }
